@@ -60,6 +60,9 @@ pub struct SimScenario {
     /// (`jmp bystander` / `b bystander`)
     #[serde(default)]
     pub forwarders: Vec<(usize, usize)>,
+    /// distance between consecutive function entries = extent of one function
+    #[serde(default = "default_pitch")]
+    pub pitch: u64,
     pub lifetimes: Vec<Lifetime>,
     /// free-text classes used for the distinct-case measure
     pub classes: Vec<String>,
@@ -139,7 +142,22 @@ pub struct LayoutOpts {
     pub page_size: u64,
 }
 
+pub fn default_pitch() -> u64 {
+    16
+}
+
+/// Smallest function extent the unchanged entry patch fits in: `jmp rel32` (the trampoline is
+/// always within rel32 reach of an 8-byte-aligned entry), three A64 words, `ldr ip; bx ip; .word`.
+pub fn tight_pitch(arch: Arch) -> u64 {
+    match arch {
+        Arch::X86_64 => 8,
+        Arch::A64 => 12,
+        Arch::Arm => 12,
+    }
+}
+
 pub struct Layout {
+    pub pitch: u64,
     pub text: Vec<TextRegion>,
     pub foreign: Vec<(u64, u64)>,
     pub targets: Vec<u64>,
@@ -187,6 +205,26 @@ pub fn gen_layout(rng: &mut Rng, arch: Arch, os: Os, pol: &PolicySpec, o: &Layou
     let base = base.max(min_page);
     let text = vec![TextRegion { addr: base, pages: text_pages, fill_seed: rng.next_u64() }];
     // ---- first target offset inside the first page
+    // functions packed as tightly as the entry patch allows, in a third of the layouts
+    let tight = rng.chance(1, 3);
+    let pitch = if tight { tight_pitch(arch) } else { 16 };
+    if tight {
+        classes.push("tight".into());
+    }
+    // x86-64, tight: entries are 8-byte aligned and never on an allocation granule, so that the
+    // 5-byte form always reaches the trampoline (see tight_pitch)
+    let fixup = |a: u64| -> u64 {
+        if tight && arch == Arch::X86_64 {
+            let a = a & !7;
+            if a % 0x10000 == 0 {
+                a + 8
+            } else {
+                a
+            }
+        } else {
+            a
+        }
+    };
     let al = align_of(arch);
     let oc = o.offset_class.unwrap_or_else(|| rng.below(6) as u32);
     let off = match oc {
@@ -200,7 +238,7 @@ pub fn gen_layout(rng: &mut Rng, arch: Arch, os: Os, pol: &PolicySpec, o: &Layou
     classes.push(format!("off{oc}"));
     let mut targets = Vec::new();
     let mut bystanders = Vec::new();
-    let mut next = base + off;
+    let mut next = fixup(base + off);
     let thumbish = |rng: &mut Rng, a: u64| -> u64 {
         if arch == Arch::Arm {
             // ARM state needs 4-byte alignment; Thumb 2-byte
@@ -234,17 +272,20 @@ pub fn gen_layout(rng: &mut Rng, arch: Arch, os: Os, pol: &PolicySpec, o: &Layou
             bystanders.push(a);
         }
         // next slot: 16-byte pitch, sometimes a jump to another place in the area
-        next = if rng.chance(1, 5) {
+        next = if tight && rng.chance(1, 8) {
+            // the last function of the text area: nothing mapped behind it in some neighbourhoods
+            base + text_pages * ps - pitch
+        } else if rng.chance(1, 5) {
             let lim = (text_pages - 1) * ps;
-            base + rng.below(lim / 16) * 16 + if arch == Arch::Arm { 2 * rng.below(2) } else { 0 }
+            fixup(base + rng.below(lim / 16) * 16 + if arch == Arch::Arm { 2 * rng.below(2) } else { 0 })
         } else {
-            (next & !1) + 16
+            fixup((next & !1) + pitch)
         };
         // avoid overlapping slots
-        let clash = |x: u64, v: &Vec<u64>| v.iter().any(|t| ((t & !1) as i64 - (x & !1) as i64).abs() < 16);
+        let clash = |x: u64, v: &Vec<u64>| v.iter().any(|t| ((t & !1) as i64 - (x & !1) as i64).abs() < pitch as i64);
         let mut guard = 0;
-        while (clash(next, &targets) || clash(next, &bystanders) || next + 16 > base + text_pages * ps) && guard < 64 {
-            next = base + rng.below((text_pages - 1) * ps / 16) * 16;
+        while (clash(next, &targets) || clash(next, &bystanders) || next + pitch > base + text_pages * ps) && guard < 64 {
+            next = fixup(base + rng.below((text_pages - 1) * ps / 16) * 16);
             guard += 1;
         }
     }
@@ -358,7 +399,7 @@ pub fn gen_layout(rng: &mut Rng, arch: Arch, os: Os, pol: &PolicySpec, o: &Layou
             classes.push("forwarder-target".into());
         }
     }
-    Layout { text, foreign, targets, bystanders, classes, hole, forwarders }
+    Layout { pitch, text, foreign, targets, bystanders, classes, hole, forwarders }
 }
 
 /// A fake address for x86-64 / A64: anywhere in the 64-bit space, biased to the rel32 boundary
@@ -734,6 +775,7 @@ fn finish(
         targets: l.targets,
         bystanders: l.bystanders,
         forwarders: l.forwarders,
+        pitch: l.pitch,
         lifetimes,
         classes,
     }
